@@ -283,8 +283,9 @@ pub fn handle_pexpire(storage: &Arc<StorageEngine>, db: usize, parts: &[RespFram
     
     let milliseconds = match &parts[2] {
         RespFrame::BulkString(Some(bytes)) => {
-            match String::from_utf8_lossy(bytes).parse::<u64>() {
-                Ok(n) => n,
+            // A non-positive time expires the key at once (as EXPIRE does)
+            match String::from_utf8_lossy(bytes).parse::<i64>() {
+                Ok(n) => n.max(0) as u64,
                 Err(_) => return Ok(RespFrame::error("ERR value is not an integer or out of range")),
             }
         }
